@@ -399,3 +399,21 @@ def include_rules(ctx, modname: str, as_rule: str, only: tuple = ()) -> None:
         i.rule = as_rule
         ctx.rep.instances.append(i)
     ctx.rep.functions_analysed |= sub.rep.functions_analysed
+
+
+def defining_call(a, f: FuncInfo, expr, at_call: ast.AST):
+    """If expr is a local bound (single reaching definition) to a call expression, that call;
+    `at_call` is an AST node inside the statement where expr is used."""
+    if isinstance(expr, ast.Call):
+        return expr
+    if isinstance(expr, ast.Name):
+        from ..dataflow import ReachingDefs
+
+        cfg = a.cfg(f)
+        ns = cfg.nodes_containing(at_call)
+        if ns:
+            rd = ReachingDefs(a, f)
+            v = rd.def_expr(ns[0].id, expr)
+            if isinstance(v, ast.Call):
+                return v
+    return None
